@@ -52,9 +52,13 @@ class ILock:
 
 
 class Sched:
-    def __init__(self, nthreads, text=TEXT):
+    def __init__(self, nthreads, text=TEXT, jobs=None, fresh=True):
+        """jobs: optional list of callables (one per thread) run instead of tokenize(text);
+        fresh: reset the default lexer so that the threads make the process's first call"""
         self.n = nthreads
         self.text = text
+        self.jobs = jobs
+        self.fresh = fresh
         self.go = [threading.Semaphore(0) for _ in range(nthreads)]
         self.back = threading.Semaphore(0)
         self.tls = threading.local()
@@ -102,6 +106,16 @@ class Sched:
 
     def _tracer(self, frame, event, arg):
         code = frame.f_code
+        if (event == 'call' and self.jobs is not None and code.co_name in ('run', 'process')
+                and ('sqlparse/engine/filter_stack' in code.co_filename or ('sqlparse/filters/' in code.co_filename
+                                                                                  and 'filters/tokens' not in code.co_filename))):
+            me = self.current()
+
+            def local2(fr, ev, a):
+                if ev == 'line':
+                    self.gate(me, fr.f_code.co_name, fr.f_lineno)
+                return local2
+            return local2
         if event == 'call' and code.co_filename.endswith('sqlparse/lexer.py') and code.co_name in FUNCS:
             me = self.current()
             if code.co_name == 'get_tokens':
@@ -128,7 +142,10 @@ class Sched:
         self.gate(me, 'start', 0)
         sys.settrace(self._tracer)
         try:
-            self.results[me] = [(str(tt), v) for tt, v in lexer.tokenize(self.text)]
+            if self.jobs is not None:
+                self.results[me] = self.jobs[me]()
+            else:
+                self.results[me] = [(str(tt), v) for tt, v in lexer.tokenize(self.text)]
         except BaseException as e:  # noqa
             self.results[me] = 'EXC:' + type(e).__name__
         finally:
@@ -156,7 +173,8 @@ class Sched:
         saved_lock = Lexer._lock
         saved_inst = Lexer._default_instance
         Lexer._lock = self.lock
-        Lexer._default_instance = None
+        if self.fresh:
+            Lexer._default_instance = None
         threads = [threading.Thread(target=self._worker, args=(t,), daemon=True) for t in range(self.n)]
         try:
             for th in threads:
@@ -182,7 +200,7 @@ class Sched:
                     raise Hang('thread %d did not reach a gate' % t)
                 last = t
                 step += 1
-                if step > 5000:
+                if step > 200000:
                     raise Hang('too many steps')
             for th in threads:
                 th.join(timeout=self.watchdog)
@@ -248,3 +266,11 @@ def change_points(events):
             pts.append(i)
             last = sig
     return pts
+
+
+def random_chooser(rng, switch=0.2):
+    def ch(s, runnable, step, last):
+        if last in runnable and rng.random() > switch:
+            return last
+        return rng.choice(runnable)
+    return ch
